@@ -22,6 +22,7 @@ import (
 func Run(c *lib.Ctx) {
 	c.Rule = "a step-controlled case is non-trivial when it contains at least one release from a yield point; distinct by its full action/observation trace"
 	c.Assumptions = []string{
+		"size family (fork.go): oracle only – the C05 models have no parent–child relation (Fork / Join are C04's), every single registration made here (port Open, Local.Store / LoadOrStore, agent accept) is an operation the models cover; checked after the parent's Exit: all port tables empty, endpoints closed, no Local value of the parent or any child, agent empty, every child terminated, no exit hook left, no pump goroutine",
 		"ports closed in mid-flight (portclose.go): oracle only – Uniflow.PortMaps has no `listening` table and no listener goroutines, and a listener that is scheduled late legitimately re-opens the port it listens on after the Close, so map sizes in mid-script are not compared with the model; checked are: Open for a running process never returns a closed endpoint (after the listeners of the closed port had time to return), and after every Exit all readers / writers / listening tables of every port touched are empty, every endpoint returned is closed, no pump goroutine is left",
 		"fire-and-forget node (ffnode.go): every call the hand-written node makes on its own packet.Tracer (Read, Link, Write, Receive incl. Receive(w, nil) = discard, Drop) runs under a harness mutex and is replayed on Uniflow.Tracer (driver c05t): the sizes of the seven maps after each call and the answers the requester received are compared; whether a Write was accepted is read off Tracer.Writes(writer)",
 		"exit races (race.go): that AddExitHook is atomic with respect to Exit (one step in Uniflow.Local / PortMaps / AgentProc) is tied to the code by C04's regenerated process.go facts (Props/C05Tie.lean) and searched for failing inputs by brute force – 3–5 hook-registering operations and Exit released together behind a spin barrier on >= 4 CPUs, 30k trials quick / 300k thorough; a window narrower than the scheduler can hit in that many trials would be missed",
@@ -103,6 +104,9 @@ func Run(c *lib.Ctx) {
 
 	// ---- 5. hook-registering operations racing with Exit on several CPUs
 	runExitRaces(c, rng.Fork(), &fails)
+
+	// ---- 6. crowded exit-hook lists: forking parents, processes with many ports
+	runSizeCases(c, rng.Fork(), &fails)
 
 	c.Conclude("Uniflow.Local / Uniflow.PortMaps vs pkg/process.Local, pkg/port", ms, fails)
 }
